@@ -1036,6 +1036,85 @@ def dt_python(name, s, elems, dt, shape, order):
                       f"print('mismatches (element, got, python-scalar):', bad)\nFAILS = bool(bad)\n")
 
 
+def safediv_ref(x, y, fmax=FMAX):
+    """documented stabilised behaviour: x * min(1/y, finfo.max), with 1/±0 = ±inf"""
+    x, y = float(x), float(y)
+    r = math.copysign(INF, y) if y == 0 else (0.0 * y if math.isinf(y) else 1.0 / y)
+    return x * min(r, fmax)
+
+
+def stabilised_dtype_block(ctx):
+    """For the stabilised ops the oracle at the boundary is the DOCUMENTED stabilised behaviour, not the Python
+    scalar default (which raises at 0): safediv(x, 0) = x * finfo.max (0 for x = 0), never NaN for finite x and a
+    non-negative divisor — on every dtype, zeros included (int 0, uint8 0, bool False) — and a divisor held in an
+    integer/bool array must give exactly what the same values held as float64 give.  Same equivalence for safesub
+    on signed integer arrays."""
+    rng = ctx.rng
+    dtn = {np.float64: "np.float64", np.float32: "np.float32", np.int64: "np.int64", np.int32: "np.int32",
+           np.bool_: "np.bool_", np.uint8: "np.uint8"}
+    nums = [0.0, 0.5, -2.5, 3.0, 1.0, -0.0, 7.0, 1e300, -1e-300, 0, 2]
+    for dt in DTYPES:
+        pool = [False, True] if dt is np.bool_ else ([0, 1, 2, 3, 200, 255] if dt is np.uint8 else
+                                                    ([0, 1, 2, 3, 7, 1000] if dt in (np.int64, np.int32) else
+                                                     [0.0, 1.0, 2.0, 0.5, 3.0, 96.0]))
+        for shape in DT_SHAPES:
+            n = int(np.prod(shape)) if shape else 1
+            for rep in range(4):
+                ys = [0 if (k == 0 or rng.random() < 0.35) else rng.choice(pool) for k in range(n)]
+                ys = [bool(v) for v in ys] if dt is np.bool_ else ys
+                yarr = np.array(ys, dtype=dt).reshape(shape)
+                yflt = yarr.astype(np.float64)
+                fmax = float(np.finfo(np.float32).max) if dt is np.float32 else FMAX
+                for form in ("number", "array"):
+                    xs = [rng.choice(nums)] * n if form == "number" else [rng.choice(nums) for _ in range(n)]
+                    X = xs[0] if form == "number" else np.array([float(v) for v in xs]).reshape(shape)
+                    got = call(ops.safediv, X, yarr)
+                    ctx.count(f"dtype:stabilised:safediv:{dt.__name__}")
+                    if is_exc(got):
+                        ctx.count(f"dtype:array-declines:safediv:{dt.__name__}")
+                        continue
+                    got = np.asarray(got, dtype=np.float64)
+                    held = np.asarray(ops.safediv(X, yflt), dtype=np.float64) if dt not in (np.float64, np.float32) else None
+                    xsrc = hx(X) if form == "number" else arr_src(X)
+                    ysrc = f"np.array([{', '.join(hx(v) for v in ys)}], dtype={dtn[dt]}).reshape({tuple(shape)!r})"
+                    py = PRELUDE + (f"x = {xsrc}\ny = {ysrc}\nr = np.asarray(ops.safediv(x, y), dtype=float)\n"
+                                    f"rf = np.asarray(ops.safediv(x, y.astype(np.float64)), dtype=float)\nprint(r, rf)\n"
+                                    f"xf = np.broadcast_to(np.asarray(x, dtype=float), r.shape)\n"
+                                    f"FAILS = bool(np.isnan(r[np.isfinite(xf)]).any())"
+                                    + ("" if held is None else " or not allsame(r, rf)") + "\n")
+                    for k, (xv, yv, g) in enumerate(zip(xs, yarr.ravel().tolist(), got.ravel().tolist())):
+                        w = dict(op="safediv", form=f"({form}, array)", dtype=dt.__name__, shape=list(shape),
+                                 x=jv(xv), divisor=jv(yv), numerators=jv(xs), divisors=jv(ys))
+                        if math.isfinite(float(xv)) and g != g:
+                            ctx.fail("input", f"C15.safediv-nan:{dt.__name__}", witness=w,
+                                     expected="never NaN for a finite numerator and a non-negative divisor (0/0 = 0)", got="nan", python=py)
+                            break
+                        if held is not None and not same(g, held.ravel().tolist()[k]):
+                            ctx.fail("input", f"C15.safediv-int-vs-float-divisor:{dt.__name__}", witness=w,
+                                     expected=jv(held.ravel().tolist()[k]), got=jv(g), python=py)
+                            break
+                        ref = safediv_ref(xv, yv, fmax)
+                        ctx.count("dtype:stabilised:cells")
+                        if ref == ref and not (same(g, ref) or (math.isfinite(ref) and math.isfinite(g)
+                                                                and abs(g - ref) <= (1e-6 if dt is np.float32 else 1e-12) * max(1.0, abs(ref)))):
+                            ctx.fail("input", f"C15.safediv-documented:{dt.__name__}", witness=w,
+                                     expected=jv(ref), got=jv(g), python=py)
+                            break
+                    else:
+                        ctx.case(nontrivial_key=("stab", "safediv", dt.__name__, shape, form, yarr.tobytes(), repr(xs)))
+                # safesub: signed-integer-held subtrahend == float-held subtrahend (finite values: == x - y)
+                if dt in (np.int64, np.int32):
+                    x = rng.choice([0.5, -2.5, 3.0, 0.0, -INF])
+                    a, b = call(ops.safesub, x, yarr), call(ops.safesub, x, yflt)
+                    ctx.count(f"dtype:stabilised:safesub:{dt.__name__}")
+                    if not is_exc(a) and not is_exc(b) and not all(same(u, v) for u, v in
+                                                                    zip(np.asarray(a).ravel().tolist(), np.asarray(b).ravel().tolist())):
+                        ctx.fail("input", f"C15.safesub-int-vs-float:{dt.__name__}",
+                                 witness=dict(op="safesub", x=jv(x), dtype=dt.__name__, y=jv(ys)), expected=jv(b), got=jv(a),
+                                 python=PRELUDE + f"x = {hx(x)}\ny = np.array([{', '.join(hx(v) for v in ys)}], dtype={dtn[dt]})\n"
+                                 "r = ops.safesub(x, y); rf = ops.safesub(x, y.astype(np.float64))\nprint(r, rf)\nFAILS = not allsame(r, rf)\n")
+
+
 def dtype_grid(ctx, volume=1):
     """Every binary op, (Python scalar, array) in both orders, array dtypes float64/float32/int64/int32/bool/uint8,
     shapes (), (3,), (2,3).  Oracle: the Python-scalar default applied to every element; values compared in
@@ -1152,6 +1231,7 @@ def dtype_grid(ctx, volume=1):
                                  f"    if not (float(g) == float(w) or abs(float(g) - float(w)) <= 1e-6 * max(1.0, abs(float(w)))): bad.append((a, b, g, w))\n"
                                  f"print(bad)\nFAILS = bool(bad)\n")
                         break
+    stabilised_dtype_block(ctx)
     # UNITS neutrality on every dtype
     for uop, u in ops.UNITS.items():
         nm = opname(uop)
